@@ -49,6 +49,7 @@ type Contract struct {
 	HasMod   bool // a modifies clause is present (possibly "modifies nothing")
 	Allocs   bool // the function may allocate objects visible to the caller
 	AllocT   []string // ... of these kinds (struct short names, "map", "chan", "cell")
+	SpawnMod []ast.Expr // what goroutines started by this function may modify (default: nothing)
 	Devirt   map[string]string
 	ModText  []string
 	LoopInvs map[int][]Clause
@@ -144,7 +145,7 @@ var declKeywords = map[string]bool{"func": true, "extern": true, "field": true, 
 	"ghost": true, "axiom": true, "monitor": true, "lemma": true, "devirtall": true}
 var clauseKeywords = map[string]bool{"prop": true, "params": true, "results": true, "recv": true, "requires": true, "ensures": true,
 	"modifies": true, "loop": true, "on": true, "instantiate": true, "strings": true, "inline": true, "mode": true, "decreases": true,
-	"safety": true, "invariant": true, "protects": true, "self": true, "vars": true, "assumes": true, "replay": true, "allocates": true, "devirt": true}
+	"safety": true, "invariant": true, "protects": true, "self": true, "vars": true, "assumes": true, "replay": true, "allocates": true, "devirt": true, "spawn": true}
 
 // desugarSpec rewrites ==> and <==> (lowest precedence, right associative) into calls.
 func desugarSpec(s string) string {
@@ -620,6 +621,19 @@ func parseContractFile(path, pkgPath, pkgName string) (*ContractFile, error) {
 					if len(p) == 2 {
 						cur.Inst[strings.TrimSpace(p[0])] = strings.TrimSpace(p[1])
 					}
+				}
+			case "spawn":
+				r2 := strings.TrimSpace(strings.TrimPrefix(rest, "modifies"))
+				for _, m := range splitTop(r2, ',') {
+					m = strings.TrimSpace(m)
+					if m == "" || m == "nothing" {
+						continue
+					}
+					e, err := parseSpec(m)
+					if err != nil {
+						return nil, fmt.Errorf("%s:%d: %v", path, rl.line, err)
+					}
+					cur.SpawnMod = append(cur.SpawnMod, e)
 				}
 			case "allocates":
 				cur.Allocs = true
